@@ -32,7 +32,7 @@ CONSTANTS
  ConnackRcs = {0}
  AckRMs = {1, 99999}
  AckTAMs = {1, 2, 99999}
- AckMPSs = {12, 99999}
+ AckMPSs = {11, 12, 9, 99999}
  AckSEIs = {99999}
  SKAs = {99999}
  RogueHandshake = FALSE
@@ -52,3 +52,5 @@ CONSTANTS
  Restore = FALSE
  Regulate_ = FALSE
  OptFlips = {}
+ FreeIdSends = FALSE
+ Msgs = {"m1"}
